@@ -191,6 +191,7 @@ package evaluator
 //@ pure valKind(x value) int = ite(is(x, *numVal), 1, ite(is(x, *stringVal), 2, ite(is(x, *boolVal), 3, ite(is(x, *anyVal), 4, ite(is(x, *arrayVal), 5, ite(is(x, *mapVal), 6, 0))))))
 // Typing facts the parser establishes (docs/spec.md operator table and index rules), assumed of every tree:
 //@ global forall(b, *parser.BinaryExpression, wf(parser.Node(b)) ==> kind(b.Left) == kind(b.Right) || (kind(b.Left) == 5 && b.Op == parser.OP_ASTERISK && kind(b.Right) == 1))
+//@ global forall(b, *parser.BinaryExpression, wf(parser.Node(b)) && b.Op == parser.OP_ASTERISK ==> kind(b.Right) == 1 && (kind(b.Left) == 1 || kind(b.Left) == 5))
 //@ global forall(x, *parser.IndexExpression, wf(parser.Node(x)) ==> (kind(x.Left) == 6 ==> kind(x.Index) == 2) && (kind(x.Left) == 5 || kind(x.Left) == 2 ==> kind(x.Index) == 1))
 //@ global forall(x, *parser.SliceExpression, wf(parser.Node(x)) ==> (x.Start != nil ==> kind(x.Start) == 1) && (x.End != nil ==> kind(x.End) == 1))
 
